@@ -35,6 +35,7 @@ type wrCfg struct {
 	nh.Cfg
 	NK, Rounds, Ops, Readers int
 	Backup                   string // directory for concurrent backups ("" = none)
+	Gun                      bool   // every writer runs the SAME operations, started together by a spin barrier
 }
 
 var wrNoMem bool
@@ -71,6 +72,22 @@ func wrScenario(t *tr.W, rnd *rand.Rand, c wrCfg, idx int) string {
 		for w := 0; w < c.Writers; w++ {
 			for j := 0; j < c.Ops; j++ {
 				plans[w] = append(plans[w], [3]int{rnd.Intn(10), 1 + rnd.Intn(c.NK), 0})
+			}
+		}
+		var arrive []int32
+		if c.Gun {
+			// identical plans, one start gun per operation: every writer attacks the same key at the same instant
+			for w := 1; w < c.Writers; w++ {
+				plans[w] = plans[0]
+			}
+			arrive = make([]int32, c.Ops)
+		}
+		gun := func(j int) {
+			if arrive == nil {
+				return
+			}
+			atomic.AddInt32(&arrive[j], 1)
+			for spin := 0; atomic.LoadInt32(&arrive[j]) < int32(c.Writers) && spin < 2000000; spin++ {
 			}
 		}
 		var wg sync.WaitGroup
@@ -151,24 +168,28 @@ func wrScenario(t *tr.W, rnd *rand.Rand, c wrCfg, idx int) string {
 				debug.SetPanicOnFault(true)
 				name := names[w]
 				wr := d.W[w]
-				for _, op := range plans[w] {
+				for j, op := range plans[w] {
 					k := op[1]
 					id := int(atomic.AddInt64(&opid, 1))
 					switch {
 					case op[0] < 4:
 						t.Emit(tr.Ev{"e": "Call", "p": name, "op": "ins", "k": k, "n": id})
+						gun(j)
 						n := wr.Put2(d.Item(k, id))
 						t.Emit(tr.Ev{"e": "Ret", "p": name, "ok": n != nil})
 					case op[0] < 6:
 						t.Emit(tr.Ev{"e": "Call", "p": name, "op": "del", "k": k, "n": 0})
+						gun(j)
 						ok := wr.Delete(d.Item(k, 0))
 						t.Emit(tr.Ev{"e": "Ret", "p": name, "ok": ok})
 					case op[0] < 8:
 						t.Emit(tr.Ev{"e": "Call", "p": name, "op": "del", "k": k, "n": 0})
+						gun(j)
 						_, ok := wr.Delete2(d.Item(k, 0))
 						t.Emit(tr.Ev{"e": "Ret", "p": name, "ok": ok})
 					default:
 						t.Emit(tr.Ev{"e": "Call", "p": name, "op": "look", "k": k, "n": 0})
+						gun(j)
 						n := wr.GetNode(d.Item(k, 0))
 						t.Emit(tr.Ev{"e": "Ret", "p": name, "ok": n != nil})
 					}
@@ -273,6 +294,7 @@ func wrMain(args []string) int {
 	skip := fs.Int("skip", 0, "skip the first scenarios (resume after a crash)")
 	nomem := fs.Bool("nomem", false, "do not record allocator events")
 	backup := fs.String("backup", "", "directory: run StoreToDisk concurrently with the writers and restore it afterwards")
+	gunF := fs.Bool("gun", false, "start-gun scenarios: all writers run the same operations on the same keys at the same instant")
 	churn := fs.Float64("churn", 0, "seconds per scenario of reader-vs-churn stress (instead of the round-based scenarios)")
 	fs.Parse(args)
 	if *churn > 0 {
@@ -294,6 +316,13 @@ func wrMain(args []string) int {
 			c.Cfg.Writers = 2 + srnd.Intn(5)
 			c.NK = 1 + srnd.Intn(8)
 			c.Ops = 8 + srnd.Intn(20)
+		}
+		if *gunF {
+			c.Gun = true
+			c.Readers = 0
+			c.NK = 1 + srnd.Intn(2)
+			c.Rounds = 3 + srnd.Intn(4)
+			c.Cfg.Writers = 2 + srnd.Intn(3)
 		}
 		switch *mm {
 		case 1:
